@@ -1,11 +1,16 @@
 (* C15 driver: one case per line -> the final values of the position objects (decimal), space separated.
    ring <fam> <op> <W> <p> <p1> <r3> <ir> <ia> <ib> <ic> <vr> <va> <vb> <vc>
    gcd5 ig iu iv ia ib vg vu vv va vb | gcd4 iu iv ia ib vu vv va vb | divmod iq ir ia ib vq vr va vb
-   powmod ir in im vr vn e vm | q <op> ir ia rn rd an ad | gcdext a b | invmod a p *)
+   powmod ir in im vr vn e vm | q <op> ir ia rn rd an ad | gcdext a b | invmod a p
+   poly <p> <op> ir ia ib ic vr va vb vc | pdivmod <p> iq ir ia ib vq vr va vb   (polynomials: z or c0,c1,..) *)
 let zs = z_of_string
 let ps s = pos_of_za (ZA.of_string s)
 let ns s = nat_of_int (int_of_string s)
 let out l = String.concat " " (List.map string_of_z l)
+(* polynomials: "z" or comma separated coefficients, constant term first *)
+let poly_of s = if s = "z" then [] else List.map zs (String.split_on_char ',' s)
+let string_of_poly l = if l = [] then "z" else String.concat "," (List.map string_of_z l)
+let outp l = String.concat " " (List.map string_of_poly l)
 let () = run_lines (fun toks ->
   match toks with
   | ["ring"; fam; op; w; p; p1; r3; ir; ia; ib; ic; vr; va; vb; vc] ->
@@ -22,6 +27,10 @@ let () = run_lines (fun toks ->
     out (Model.run_powmod (ps ir) (ps inn) (ps im) (zs vr) (zs vn) (zs e) (zs vm))
   | ["q"; op; ir; ia; rn; rd; an; ad] ->
     out (Model.run_q (ns op) (ps ir) (ps ia) (zs rn) (zs rd) (zs an) (zs ad))
+  | ["poly"; p; op; ir; ia; ib; ic; vr; va; vb; vc] ->
+    outp (Model.run_poly (zs p) (ns op) (ps ir) (ps ia) (ps ib) (ps ic) (poly_of vr) (poly_of va) (poly_of vb) (poly_of vc))
+  | ["pdivmod"; p; iq; ir; ia; ib; vq; vr; va; vb] ->
+    outp (Model.run_pdivmod (zs p) (ps iq) (ps ir) (ps ia) (ps ib) (poly_of vq) (poly_of vr) (poly_of va) (poly_of vb))
   | ["gcdext"; a; b] ->
     let ((g, s), t) = Model.gcdext (zs a) (zs b) in out [g; s; t]
   | ["invmod"; a; p] -> string_of_z (Model.invmod (zs a) (zs p))
